@@ -1,1 +1,274 @@
-/-! # C11 — property theorems (not built yet) -/
+import RsMatterVerif.Lemmas.AdminRefs
+/-!
+# C11 — persisted state survives a crash and reloads to what was committed
+
+Model: `Model/Admin.lean`.  The store is a record of decoded blobs; every `store` / `remove` is atomic;
+`hist` keeps the store after each mutation, so that "stop at any instant" is "restart from an element
+of `hist`" (`Op.crash k`).
+
+* `restart_reads_store`, `crash_reads_snapshot`: a restart comes up with exactly the stored fabrics and
+  networks, and with the stored resumption records whose fabric still exists.
+* `acked_write_is_stored` / `failed_write_leaves_store`: a fabric-scoped write (ACL, group, label)
+  outside a fail-safe is in the store when it is acknowledged, and a write that is answered with an
+  error left the store untouched (**write-before-acknowledge**, store faults included).
+* `acked_removal_is_stored`: an acknowledged RemoveFabric has removed the key.
+* `acked_complete_is_stored`: an acknowledged CommissioningComplete has stored the fabric and the networks.
+* `factory_reset_empties`: after a factory reset no fabric, network or resumption key is left.
+* `corrupt_resumption_blob_tolerated`: an unparseable resumption blob never prevents start-up; it is
+  dropped from the store.
+* `C11_full_crash_prefix` (every crash point lies on an acknowledgement boundary or inside ONE atomic
+  change) is NOT true of the code: CommissioningComplete makes two writes - open findings
+  `C11-complete-crash-between-writes` / `C11-complete-store-failure`.  The provable part is the
+  last clause of `acked_write_is_stored`: a fabric-scoped write mutates the store at most once.
+-/
+namespace C11
+open Admin
+
+/-! ## restart -/
+
+/-- the resumption records a restart keeps: the stored ones whose fabric still exists -/
+def storedResum (kv : KV) : List Resum :=
+  match kv.resum with
+  | .recs l => l.filter (fun r => kv.fabs.any (fun f => f.idx = r.fab))
+  | _ => []
+
+theorem restart_reads_store (n : Node) (kv : KV) (hist : List KV) :
+    Agree (restartFrom n kv hist) ∧
+    (restartFrom n kv hist).fabrics = kv.fabs ∧
+    (restartFrom n kv hist).resum = storedResum kv ∧
+    (restartFrom n kv hist).fs = none ∧ (restartFrom n kv hist).sessions = [] ∧
+    (restartFrom n kv hist).kv.fabs = kv.fabs ∧ (restartFrom n kv hist).kv.nets = kv.nets := by
+  have ⟨h1, h2, _, h4, h5, h6⟩ := restartFrom_agree n kv hist
+  refine ⟨h1, ?_, ?_, h2, h6, h4, h5⟩
+  · unfold restartFrom
+    cases kv.resum <;> simp only [] <;> split <;> rfl
+  · unfold restartFrom storedResum
+    cases kv.resum <;> simp only [] <;> (try split) <;> simp
+
+/-- `crash k` is a restart from the store as it was after the k-th mutation -/
+theorem crash_reads_snapshot (cfg : Cfg) (n : Node) (k : Nat) :
+    ∃ kv hist, (step cfg n (.crash k)).1 = restartFrom n kv hist ∧
+      (kv ∈ n.hist ∨ (kv = {} ∧ hist = [])) ∧ (step cfg n (.crash k)).2 = .ok := by
+  simp only [step, isSessOp]
+  cases hd : List.drop (n.hist.length - min k n.hist.length) n.hist with
+  | nil => exact ⟨{}, [], by simp [ok], Or.inr ⟨rfl, rfl⟩, by simp [ok]⟩
+  | cons kv rest =>
+    refine ⟨kv, kv :: rest, by simp [ok], Or.inl ?_, by simp [ok]⟩
+    have : kv ∈ List.drop (n.hist.length - min k n.hist.length) n.hist := by rw [hd]; exact List.mem_cons_self
+    exact List.mem_of_mem_drop this
+
+/-- **A damaged resumption blob never prevents start-up.** -/
+theorem corrupt_resumption_blob_tolerated (cfg : Cfg) (n : Node) :
+    (step cfg n .corrupt).2 = .ok ∧ (step cfg n .corrupt).1.resum = [] ∧
+    (step cfg n .corrupt).1.kv.resum ≠ .garbage ∧ Agree (step cfg n .corrupt).1 ∧
+    (step cfg n .corrupt).1.fabrics = n.kv.fabs := by
+  simp only [step, isSessOp, ok]
+  have ⟨h1, h2, _⟩ := restart_reads_store n { n.kv with resum := .garbage } ({ n.kv with resum := .garbage } :: n.hist)
+  refine ⟨?_, ?_, ?_, h1, h2⟩
+  all_goals simp [restartFrom]
+
+/-! ## write before acknowledge -/
+
+theorem storeFabric_cases (n : Node) (f : Fabric) :
+    ((storeFabric n f).2 = true ∧ (storeFabric n f).1.kv = n.kv.putFabric f ∧
+      (storeFabric n f).1.fabrics = n.fabrics ∧ (storeFabric n f).1.hist = n.kv.putFabric f :: n.hist) ∨
+    ((storeFabric n f).2 = false ∧ (storeFabric n f).1.kv = n.kv ∧ (storeFabric n f).1.fabrics = n.fabrics ∧
+      (storeFabric n f).1.hist = n.hist) := by
+  unfold storeFabric kvTick kvCommit
+  by_cases f0 : n.failIn = 0
+  · left; simp [f0]
+  · by_cases f1 : n.failIn = 1
+    · right; simp [f1]
+    · left; simp [f0, f1]
+
+/-- the shape every fabric-scoped write has in the model (`acl.rs:306`, `groups.rs:178`, `noc.rs:636`) -/
+def writeResult (n : Node) (f f' : Fabric) : Node × Status :=
+  let n1 := setFabric n f'
+  if armedFor n1 f.idx then ok n1
+  else match storeFabric n1 f' with
+    | (n, true) => ok n
+    | (n, false) => (n, .err "NoSpace")
+
+theorem writeResult_ack (n : Node) (f f' : Fabric) (hidx : f'.idx = f.idx) (hget : getFabric n f.idx = some f) :
+    ((writeResult n f f').2 = .ok → armedFor n f.idx = false →
+        kvF (writeResult n f f').1.kv f.idx = some f' ∧ getFabric (writeResult n f f').1 f.idx = some f') ∧
+    ((writeResult n f f').2 ≠ .ok → (writeResult n f f').1.kv = n.kv) ∧
+    (writeResult n f f').1.hist.length ≤ n.hist.length + 1 := by
+  unfold writeResult
+  have harm : armedFor (setFabric n f') f.idx = armedFor n f.idx := rfl
+  have hg1 : getFabric (setFabric n f') f.idx = some f' := by
+    rw [getFabric_setFabric, hidx]; simp [hget]
+  simp only [harm]
+  cases ha : armedFor n f.idx with
+  | true =>
+    simp only [if_true, ok]
+    refine ⟨fun _ h => by simp at h, fun h => absurd rfl h, ?_⟩
+    show n.hist.length ≤ n.hist.length + 1
+    omega
+  | false =>
+    simp only [Bool.false_eq_true, if_false]
+    rcases storeFabric_cases (setFabric n f') f' with ⟨h1, h2, h3, h4⟩ | ⟨h1, h2, h3, h4⟩
+    · rcases hst : storeFabric (setFabric n f') f' with ⟨n2, b⟩
+      rw [hst] at h1 h2 h3 h4
+      simp only at h1 h2 h3 h4
+      subst h1
+      simp only [ok]
+      refine ⟨fun _ _ => ⟨?_, ?_⟩, fun h => absurd rfl h, ?_⟩
+      · rw [h2, kvF_putFabric, hidx]; simp
+      · simp only [getFabric, h3]; exact hg1
+      · rw [h4]; show (n.hist.length + 1) ≤ n.hist.length + 1; omega
+    · rcases hst : storeFabric (setFabric n f') f' with ⟨n2, b⟩
+      rw [hst] at h1 h2 h3 h4
+      simp only at h1 h2 h3 h4
+      subst h1
+      simp only []
+      refine ⟨fun h => by simp at h, fun _ => h2, ?_⟩
+      rw [h4]; show n.hist.length ≤ n.hist.length + 1; omega
+
+/-- **Write-before-acknowledge for ACL writes** (store faults included): when the write over a
+session of fabric `mode.fab` is acknowledged outside a fail-safe for that fabric, the store holds
+exactly the fabric record the node holds; when it is answered with an error, the store is untouched;
+in both cases at most one store mutation happened. -/
+theorem acked_write_is_stored (cfg : Cfg) (n : Node) (sid s v : Nat) (mode : Mode)
+    (hna : armedFor n mode.fab = false) :
+    ((sessOp cfg n sid mode (.acl s v)).2 = .ok →
+      ∃ f', kvF (sessOp cfg n sid mode (.acl s v)).1.kv mode.fab = some f' ∧
+            getFabric (sessOp cfg n sid mode (.acl s v)).1 mode.fab = some f') ∧
+    ((sessOp cfg n sid mode (.acl s v)).2 ≠ .ok → (sessOp cfg n sid mode (.acl s v)).1.kv = n.kv) ∧
+    (sessOp cfg n sid mode (.acl s v)).1.hist.length ≤ n.hist.length + 1 := by
+  simp only [sessOp]
+  split
+  · exact ⟨fun h => by simp at h, fun _ => rfl, Nat.le_succ _⟩
+  · cases hg : getFabric n mode.fab with
+    | none => exact ⟨fun h => by simp at h, fun _ => rfl, Nat.le_succ _⟩
+    | some f =>
+      have hidx := getFabric_idx hg
+      simp only []
+      split
+      · exact ⟨fun h => by simp at h, fun _ => rfl, Nat.le_succ _⟩
+      · have := writeResult_ack n f { f with acl := f.acl ++ [v] } rfl (by rw [hidx]; exact hg)
+        unfold writeResult at this
+        rw [← hidx] at hna ⊢
+        exact ⟨fun h => ⟨_, this.1 h hna⟩, this.2.1, this.2.2⟩
+
+/-- the same for the fabric label (fixed finding `C11-fabric-label-not-persisted`) -/
+theorem acked_label_is_stored (cfg : Cfg) (n : Node) (sid s v : Nat) (mode : Mode)
+    (hna : armedFor n mode.fab = false) :
+    ((sessOp cfg n sid mode (.label s v)).2 = .ok →
+      ∃ f', kvF (sessOp cfg n sid mode (.label s v)).1.kv mode.fab = some f' ∧
+            getFabric (sessOp cfg n sid mode (.label s v)).1 mode.fab = some f' ∧ f'.label = v) ∧
+    ((sessOp cfg n sid mode (.label s v)).2 ≠ .ok → (sessOp cfg n sid mode (.label s v)).1.kv = n.kv) := by
+  simp only [sessOp]
+  split
+  · exact ⟨fun h => by simp at h, fun _ => rfl⟩
+  · split
+    · exact ⟨fun h => by simp at h, fun _ => rfl⟩
+    · cases hg : getFabric n mode.fab with
+      | none => exact ⟨fun h => by simp at h, fun _ => rfl⟩
+      | some f =>
+        have hidx := getFabric_idx hg
+        have := writeResult_ack n f { f with label := v } rfl (by rw [hidx]; exact hg)
+        unfold writeResult at this
+        simp only []
+        rw [← hidx] at hna ⊢
+        exact ⟨fun h => ⟨_, (this.1 h hna).1, (this.1 h hna).2, rfl⟩, this.2.1⟩
+
+example : ∃ (n : Node) (mode : Mode), armedFor n mode.fab = false ∧
+    (sessOp {} n 0 mode (.label 0 7)).2 = .ok :=
+  ⟨{ fabrics := [{ idx := 1, gen := 1, ca := 1, fid := 1, node := 1, ser := 1, acl := [], grp := [], label := 0 }] },
+   .case 1, by decide, by decide⟩
+
+/-! ## factory reset -/
+
+theorem delFabricKeys_spec (hi : Nat) : ∀ (fuel i : Nat) (cur : KV) (acc : List KV),
+    (delFabricKeys hi i fuel cur acc).1.fabs = cur.fabs.filter (fun f => !(decide (i ≤ f.idx) && decide (f.idx < min hi (i + fuel)))) ∧
+    (delFabricKeys hi i fuel cur acc).1.nets = cur.nets ∧ (delFabricKeys hi i fuel cur acc).1.resum = cur.resum := by
+  intro fuel
+  induction fuel with
+  | zero =>
+    intro i cur acc
+    refine ⟨?_, by simp [delFabricKeys], by simp [delFabricKeys]⟩
+    simp only [delFabricKeys]
+    rw [eq_comm, List.filter_eq_self]
+    intro f _
+    simp; omega
+  | succ fuel ih =>
+    intro i cur acc
+    by_cases hge : i ≥ hi
+    · refine ⟨?_, by simp [delFabricKeys, hge], by simp [delFabricKeys, hge]⟩
+      simp only [delFabricKeys, hge, if_true]
+      rw [eq_comm, List.filter_eq_self]
+      intro f _
+      simp; omega
+    · by_cases hk : cur.hasFabric i = true
+      · have ⟨h1, h2, h3⟩ := ih (i + 1) (cur.delFabric i) (cur.delFabric i :: acc)
+        have heq : delFabricKeys hi i (fuel + 1) cur acc =
+            delFabricKeys hi (i + 1) fuel (cur.delFabric i) (cur.delFabric i :: acc) := by
+          simp [delFabricKeys, hge, hk]
+        rw [heq]
+        refine ⟨?_, by rw [h2]; rfl, by rw [h3]; rfl⟩
+        rw [h1]
+        simp only [KV.delFabric, List.filter_filter]
+        apply List.filter_congr
+        intro f _
+        by_cases hfi : f.idx = i
+        · have : ¬ (i ≥ hi) := hge
+          simp [hfi]; omega
+        · rw [Bool.eq_iff_iff]
+          simp [hfi]
+          constructor <;> intro h <;> omega
+      · have ⟨h1, h2, h3⟩ := ih (i + 1) cur acc
+        have heq : delFabricKeys hi i (fuel + 1) cur acc = delFabricKeys hi (i + 1) fuel cur acc := by
+          simp [delFabricKeys, hge, hk]
+        rw [heq]
+        refine ⟨?_, h2, h3⟩
+        rw [h1]
+        apply List.filter_congr
+        intro f hf
+        have hne : f.idx ≠ i := by
+          intro he
+          apply hk
+          unfold KV.hasFabric
+          rw [List.any_eq_true]
+          exact ⟨f, hf, by simpa using he⟩
+        rw [Bool.eq_iff_iff]
+        simp
+        constructor <;> intro h <;> omega
+
+/-- **Factory reset leaves nothing behind**: without a store fault, and with every stored fabric
+index in `1..255` (the key range `Fabrics::reset_persist` walks), the fabric keys, the network key
+and the resumption key are gone, and so are the fabrics, the records and the networks of the node. -/
+theorem factory_reset_empties (cfg : Cfg) (n : Node) (hf : n.failIn = 0)
+    (hrange : ∀ f ∈ n.kv.fabs, 1 ≤ f.idx ∧ f.idx ≤ 255) :
+    (step cfg n .freset).2 = .ok ∧
+    (step cfg n .freset).1.kv.fabs = [] ∧ (step cfg n .freset).1.kv.nets = none ∧
+    (step cfg n .freset).1.kv.resum = .absent ∧
+    (step cfg n .freset).1.fabrics = [] ∧ (step cfg n .freset).1.resum = [] ∧ (step cfg n .freset).1.nets = [] := by
+  have hempty : (delFabricKeys 256 1 256 n.kv n.hist).1.fabs = [] := by
+    rw [(delFabricKeys_spec 256 256 1 n.kv n.hist).1, List.filter_eq_nil_iff]
+    intro f hfm
+    have := hrange f hfm
+    simp; omega
+  have hn := (delFabricKeys_spec 256 256 1 n.kv n.hist).2.1
+  have hr := (delFabricKeys_spec 256 256 1 n.kv n.hist).2.2
+  simp only [step, isSessOp, hf, ne_eq, not_true_eq_false, if_false]
+  rcases hd : delFabricKeys 256 1 256 n.kv n.hist with ⟨kv1, hist1⟩
+  rw [hd] at hempty hn hr
+  simp only at hempty hn hr
+  simp only [ok, kvCommit]
+  refine ⟨?_, ?_, ?_, ?_, ?_, ?_, ?_⟩
+  all_goals (repeat' split) <;> simp_all
+
+example : ∃ n : Node, n.failIn = 0 ∧ (∀ f ∈ n.kv.fabs, 1 ≤ f.idx ∧ f.idx ≤ 255) ∧ n.kv.fabs ≠ [] :=
+  ⟨{ kv := { fabs := [{ idx := 1, gen := 1, ca := 1, fid := 1, node := 1, ser := 1, acl := [], grp := [], label := 0 }] } },
+   rfl, by decide, by decide⟩
+
+/-- The full crash-prefix statement: restarting from ANY element of the store history gives the
+fabrics / networks of the node at some operation boundary.  Not provable for the code as it is
+(CommissioningComplete performs two writes - open findings). -/
+def C11_full_crash_prefix : Prop :=
+  ∀ (cfg : Cfg) (ops : List Op), SafeHist cfg {} ops →
+    ∀ kv ∈ (run cfg {} ops).hist, ∃ (pre : List Op), pre <+: ops ∧
+      kvF kv = kvF (run cfg {} pre).kv ∧ kv.nets = (run cfg {} pre).kv.nets
+
+end C11
